@@ -101,8 +101,7 @@ struct World {
     void make_file(const std::string& tag, size_t size)
     {
         if (scratch.empty()) {
-            scratch = "/verif/build/scratch/" + std::to_string(getpid());
-            mkdir("/verif/build/scratch", 0755);
+            scratch = scen::scratch_root() + "/" + std::to_string(getpid());
             mkdir(scratch.c_str(), 0755);
         }
         std::string path = file_path(tag);
